@@ -158,6 +158,9 @@ func (c09) Gen(rng *rand.Rand, tier string, k int) *Case {
 		if n > 150 {
 			n = 150
 		}
+		if i > 0 && rng.Intn(60) == 0 {
+			n = 800 + rng.Intn(700) // a later call over years of daily bars (anything that counts values or streams shows there)
+		}
 		cs := CallSpec{Len: n, Shape: rng.Intn(NumShapes), DataSeed: rng.Int63n(1 << 30)}
 		if glitchy {
 			cs.Shape = ShapeGlitch // bars without a price (all zero): whatever a strategy does about them is the same for a fresh instance
